@@ -101,7 +101,7 @@ theorem unpop_acc (k : Nat) (f : SFrame) (hA : P.write) (h : Tr P s0 s) : Tr P s
 grind_pattern unpop_acc => Tr P s0 (s.modStream k (unpopF f))
 
 /-- `pending_recv.push_back(event)` -/
-theorem rpush_acc (k : Nat) (e : REvent) (hA : P.rpush k e) (h : Tr P s0 s) : Tr P s0 (s.modStream k (rpushF e)) := by
+theorem rpush_acc (k : Nat) (e : REvent) (hA : P.rpush k) (h : Tr P s0 s) : Tr P s0 (s.modStream k (rpushF e)) := by
   refine modStream_lbl_acc (.rpush k e) k _ rfl (fun _ => rfl) (fun a ha => ?_) hA h
   have hk := (Store.get?_key ha).symm
   exact ⟨rfl, rfl, fun h => h, rfl, by simp [rpushF, recvEff, hk], trivial⟩
